@@ -124,6 +124,42 @@ func vtC10SetStr(ids []int64) string {
 	return cpuset.NewCPUSet(xs...).String()
 }
 
+// vtC10SetStrStyle renders a cpu set as one of several legal Linux cpu-list spellings of the same set:
+// 0 canonical ("0-2,5"), 1 every cpu as a one-element range ("0-0,1-1,2-2,5-5"), 2 single cpus in the given
+// (unsorted) order ("5,2,0,1"), 3 canonical ranges with singletons as "a-a" ("0-2,5-5"), 4 canonical plus a
+// repeated / overlapping tail ("0-2,5,0,0-1").
+func vtC10SetStrStyle(ids []int64, style int64) string {
+	if len(ids) == 0 || style == 0 {
+		return vtC10SetStr(ids)
+	}
+	sorted := append([]int64{}, ids...)
+	sort.Slice(sorted, func(i, j int) bool { return sorted[i] < sorted[j] })
+	parts := []string{}
+	switch style {
+	case 1:
+		for _, x := range sorted {
+			parts = append(parts, fmt.Sprintf("%d-%d", x, x))
+		}
+	case 2:
+		for _, x := range ids {
+			parts = append(parts, strconv.FormatInt(x, 10))
+		}
+	case 3:
+		for _, part := range strings.Split(vtC10SetStr(ids), ",") {
+			if !strings.Contains(part, "-") {
+				part = part + "-" + part
+			}
+			parts = append(parts, part)
+		}
+	default:
+		parts = append(parts, vtC10SetStr(ids), strconv.FormatInt(sorted[0], 10))
+		if len(sorted) >= 2 && sorted[1] == sorted[0]+1 {
+			parts = append(parts, fmt.Sprintf("%d-%d", sorted[0], sorted[1]))
+		}
+	}
+	return strings.Join(parts, ",")
+}
+
 // vtC10ParseFile expands a cpuset.cpus string in file order without any normalisation.
 func vtC10ParseFile(s string) []int64 {
 	s = strings.TrimSpace(s)
@@ -187,7 +223,7 @@ func vtC10Budget(d *vtC10Rd) []int64 {
 			Allocatable: corev1.ResourceList{corev1.ResourceCPU: *resource.NewMilliQuantity(allocM, resource.DecimalSI)},
 		},
 	}
-	switch annoKind {
+	switch annoKind % 10 { // tens digit = spelling of the cpu list
 	case 1:
 		node.Annotations = map[string]string{apiext.AnnotationNodeReservation: fmt.Sprintf(`{"resources":{"cpu":"%dm"}}`, annoVal)}
 	case 2:
@@ -195,7 +231,7 @@ func vtC10Budget(d *vtC10Rd) []int64 {
 		for i := int64(0); i < annoVal; i++ {
 			ids = append(ids, i)
 		}
-		node.Annotations = map[string]string{apiext.AnnotationNodeReservation: fmt.Sprintf(`{"reservedCPUs":"%s"}`, vtC10SetStr(ids))}
+		node.Annotations = map[string]string{apiext.AnnotationNodeReservation: fmt.Sprintf(`{"reservedCPUs":"%s"}`, vtC10SetStrStyle(ids, annoKind/10))}
 	case 3:
 		node.Annotations = map[string]string{"x": "y"}
 	}
@@ -293,9 +329,9 @@ func vtC10CPUSet(d *vtC10Rd) []int64 {
 		lab := d.next()
 		cpus := d.list()
 		uid := fmt.Sprintf("p%02d", i)
-		pod := &corev1.Pod{ObjectMeta: metav1.ObjectMeta{Namespace: "ns", Name: uid, UID: types.UID(uid), Labels: vtC10Lab(lab)}}
+		pod := &corev1.Pod{ObjectMeta: metav1.ObjectMeta{Namespace: "ns", Name: uid, UID: types.UID(uid), Labels: vtC10Lab(lab % 10)}}
 		if len(cpus) > 0 {
-			pod.Annotations = map[string]string{apiext.AnnotationResourceStatus: fmt.Sprintf(`{"cpuset":"%s"}`, vtC10SetStr(cpus))}
+			pod.Annotations = map[string]string{apiext.AnnotationResourceStatus: fmt.Sprintf(`{"cpuset":"%s"}`, vtC10SetStrStyle(cpus, lab/10))}
 		}
 		metas = append(metas, &statesinformer.PodMeta{Pod: pod})
 	}
@@ -305,16 +341,18 @@ func vtC10CPUSet(d *vtC10Rd) []int64 {
 	sys := d.list()
 
 	anno := map[string]string{}
-	if resKind == 1 {
-		anno[apiext.AnnotationNodeReservation] = fmt.Sprintf(`{"reservedCPUs":"%s"}`, vtC10SetStr(res))
+	// the tens digit of resKind / sysKind / a pod's label code selects the spelling of the cpu list
+	if resKind%10 == 1 {
+		anno[apiext.AnnotationNodeReservation] = fmt.Sprintf(`{"reservedCPUs":"%s"}`, vtC10SetStrStyle(res, resKind/10))
 	}
-	switch sysKind {
+	sysStr := vtC10SetStrStyle(sys, sysKind/10)
+	switch sysKind % 10 {
 	case 1:
-		anno[apiext.AnnotationNodeSystemQOSResource] = fmt.Sprintf(`{"cpuset":"%s"}`, vtC10SetStr(sys))
+		anno[apiext.AnnotationNodeSystemQOSResource] = fmt.Sprintf(`{"cpuset":"%s"}`, sysStr)
 	case 2:
-		anno[apiext.AnnotationNodeSystemQOSResource] = fmt.Sprintf(`{"cpuset":"%s","cpusetExclusive":true}`, vtC10SetStr(sys))
+		anno[apiext.AnnotationNodeSystemQOSResource] = fmt.Sprintf(`{"cpuset":"%s","cpusetExclusive":true}`, sysStr)
 	case 3:
-		anno[apiext.AnnotationNodeSystemQOSResource] = fmt.Sprintf(`{"cpuset":"%s","cpusetExclusive":false}`, vtC10SetStr(sys))
+		anno[apiext.AnnotationNodeSystemQOSResource] = fmt.Sprintf(`{"cpuset":"%s","cpusetExclusive":false}`, sysStr)
 	}
 	if policy == 1 {
 		anno[apiext.AnnotationKubeletCPUManagerPolicy] = `{"policy":"static"}`
@@ -523,6 +561,10 @@ func vtC10GenBudget(r *rand.Rand) (string, []int64) {
 	case 2:
 		annoVal = int64(1 + r.Intn(4))
 	}
+	annoStyle := int64(0)
+	if annoKind == 2 && r.Intn(2) == 0 {
+		annoStyle = int64(1 + r.Intn(4))
+	}
 	thr := []int64{0, 50, 65, 70, 100, int64(r.Intn(121))}[r.Intn(6)]
 	hasMin := int64(r.Intn(2))
 	minPct := []int64{0, 5, 10, 25, 100, int64(r.Intn(60))}[r.Intn(6)]
@@ -593,7 +635,7 @@ func vtC10GenBudget(r *rand.Rand) (string, []int64) {
 		}
 	}
 	pertDelta := []int64{1, 1, 2, 7, 64, r.Int63n(capU/4 + 1)}[r.Intn(6)]
-	in := []int64{1, capM, allocM, annoKind, annoVal, thr, hasMin, minPct, nodeU, pertKind, pertIdx, pertDelta}
+	in := []int64{1, capM, allocM, annoKind + 10*annoStyle, annoVal, thr, hasMin, minPct, nodeU, pertKind, pertIdx, pertDelta}
 	in = append(in, pods...)
 	in = append(in, hosts...)
 	return label, in
@@ -737,6 +779,23 @@ func vtC10GenCPUSet(r *rand.Rand) (string, []int64) {
 		old = []int64{int64(r.Intn(4))}
 	}
 	policy := vtB(r.Intn(4) == 0)
+	// spell some of the cpu lists in another legal form (same set): tens digit of the kind / label code
+	sty := func() int64 {
+		if r.Intn(5) < 3 {
+			return 0
+		}
+		return int64(1 + r.Intn(4))
+	}
+	if resKind == 1 {
+		resKind += 10 * sty()
+	}
+	if sysKind != 0 {
+		sysKind += 10 * sty()
+	}
+	for j, q := 1, int64(0); q < pods[0]; q++ { // pods = Q (lab k cpus*k)*Q
+		pods[j] += 10 * sty()
+		j += 2 + int(pods[j+1])
+	}
 	in := []int64{3, budget, policy}
 	in = append(in, vtC10EncList(old)...)
 	in = append(in, vtC10EncProcs(ps)...)
